@@ -5,6 +5,7 @@ import (
 	"context"
 	"errors"
 	"path"
+	"strings"
 	"time"
 
 	"github.com/hack-pad/hackpadfs"
@@ -280,10 +281,32 @@ func (fs *FS) Rename(oldname, newname string) error {
 	if err != nil {
 		return err
 	}
-	if !oldInfo.IsDir() {
-		if oldname == newname {
-			return nil
+	if !oldInfo.IsDir() && oldname == newname {
+		return nil
+	}
+	linkErr := func(err error) error {
+		return &hackpadfs.LinkError{Op: "rename", Old: oldname, New: newname, Err: err}
+	}
+	// the destination must not be a directory (nor anything at all when a directory is moved), must not lie inside
+	// the directory being moved, and its parent must be an existing directory
+	if newFile, err := fs.getFile(newname); err == nil {
+		if oldInfo.IsDir() || newFile.Mode().IsDir() {
+			return linkErr(hackpadfs.ErrExist)
 		}
+	} else if !errors.Is(err, hackpadfs.ErrNotExist) {
+		return linkErr(err)
+	}
+	if oldInfo.IsDir() && strings.HasPrefix(newname, oldname+"/") {
+		return linkErr(hackpadfs.ErrInvalid)
+	}
+	newParent, err := fs.getFile(path.Dir(newname))
+	if err != nil {
+		return linkErr(err)
+	}
+	if !newParent.Mode().IsDir() {
+		return linkErr(hackpadfs.ErrNotDir)
+	}
+	if !oldInfo.IsDir() {
 		contents, err := oldFile.fileData.Data()
 		if err != nil {
 			return err
@@ -305,11 +328,6 @@ func (fs *FS) Rename(oldname, newname string) error {
 			}
 		}
 		return err
-	}
-
-	_, err = fs.getFile(newname)
-	if !errors.Is(err, hackpadfs.ErrNotExist) {
-		return &hackpadfs.LinkError{Op: "rename", Old: oldname, New: newname, Err: hackpadfs.ErrExist}
 	}
 
 	files, err := oldFile.ReadDirNames()
